@@ -51,10 +51,23 @@ def run(ctx):
     calls = []
     import buidl.taproot as T2
     import buidl.pecc as pecc
-    orig_leaf, orig_branch, orig_tweak = T2.hash_tapleaf, T2.hash_tapbranch, pecc.hash_taptweak
-    T2.hash_tapleaf = lambda m: (calls.append(("TapLeaf", bytes(m))), orig_leaf(m))[1]
-    T2.hash_tapbranch = lambda m: (calls.append(("TapBranch", bytes(m))), orig_branch(m))[1]
-    pecc.hash_taptweak = lambda m: (calls.append(("TapTweak", bytes(m))), orig_tweak(m))[1]
+    # (no hooks on the library's hash helpers: the certified tagged-hash rows are produced below for the inputs BIP341 prescribes)
+
+    def varstr(b_):
+        n_ = len(b_)
+        return (bytes([n_]) if n_ < 0xfd else b"\xfd" + n_.to_bytes(2, "little")) + b_
+
+    def tree_rows(leaves_, shape_):
+        """BIP341 tree hash of a shape, appending the (tag, input) pairs on the way"""
+        if shape_[0] == "L":
+            lf_ = leaves_[shape_[1]]
+            inp = bytes([lf_.tapleaf_version]) + varstr(lf_.tap_script.raw_serialize())
+            calls.append(("TapLeaf", inp))
+            return hash_prim("tag:TapLeaf", inp)
+        l_, r_ = tree_rows(leaves_, shape_[1]), tree_rows(leaves_, shape_[2])
+        inp = l_ + r_ if l_ < r_ else r_ + l_
+        calls.append(("TapBranch", inp))
+        return hash_prim("tag:TapBranch", inp)
     try:
         sizes = [1, 2, 3, 4, 5, 8] if q else [1, 2, 3, 3, 4, 4, 5, 5, 6, 6, 7, 7, 8, 8, 8, 8]
         for ti, n in enumerate(sizes):
@@ -100,6 +113,7 @@ def run(ctx):
                     return {"leaf": True, "ver": lf.tapleaf_version, "script": B(lf.tap_script.raw_serialize())}
                 return {"leaf": False, "l": jt(s[1]), "r": jt(s[2])}
             del calls[:]
+            tree_rows(leaves, shape)
             tree = build(shape)
             root = outcome(tree.hash)
             mroot = outcome(build_m(shape).hash)
@@ -120,7 +134,7 @@ def run(ctx):
               t = int.from_bytes(hash_prim("tag:TapTweak", px + root[1]), "big")
               qs = (deven + t) % N256
               qg = qs * pecc.G
-              hr = [th_row(tag, m) for tag, m in calls]
+              hr = [th_row(tag, m) for tag, m in calls] + [th_row("TapTweak", px + root[1])]
               base = {"tree": jt(shape), "root": B(root[1]), "px": B(px), "qg_x": B(qg.xonly()), "qg_parity": qg.parity}
               c = dict(base)
               c.update({"id": kid, "kind": "tree", "hr": hr, "mirror_root": B(mroot[1]) if mroot[0] == "ok" else [], "d": le(d), "p_odd": bool(pk.point.parity),
@@ -168,7 +182,7 @@ def run(ctx):
                           cases.append({"id": "%s.l%d.s%d" % (kid, k, pos), "kind": "altered", "what": "leaf-script", "res": "ok" if ok2 else "raise",
                                         "alt_x": B(r2[1].xonly()) if ok2 else [], "alt_parity": r2[1].parity if ok2 else -1, "qg_x": B(qg.xonly()), "qg_parity": qg.parity})
     finally:
-        T2.hash_tapleaf, T2.hash_tapbranch, pecc.hash_taptweak = orig_leaf, orig_branch, orig_tweak
+        pass
     byid = {c["id"]: c for c in cases}
     ctx.sample({k: v for k, v in cases[0].items() if k in ("id", "kind", "tree")})
     bad = ctx.validate("taproot/C12Cases.tla", cases, "C12Cases.cfg", timeout=7200, per_shard_min=10)
